@@ -782,6 +782,21 @@ class FnItem:
         return self.parsed
 
 
+class ConstItem(FnItem):
+    """a `const NAME: T = e;` whose initialiser is not a plain constant expression (it calls a `const fn`): read as
+    a function without parameters with body `e` (compile-time evaluation has the semantics of the run-time one;
+    a panic there would be a compile error)"""
+
+    def __init__(self, mod, owner, name, ty, e, rel):
+        FnItem.__init__(self, mod, owner, None, name, [], 0, False, rel)
+        self.parsed = ([], False, ty, N("block", stmts=[], tail=e))
+        self.idents = set()
+        self.is_const = True
+
+    def rust_path(self):
+        return (self.owner + "::" if self.owner else "") + self.name + " (const)"
+
+
 class Crate:
     """items of the scanned source files"""
 
@@ -1225,6 +1240,20 @@ class FnFront:
                 return None
         return self.gen.const_lookup(self.item.mod, owner, name, self)
 
+    def const_item(self, segs):
+        """the constant `segs` as a parameterless function (see ConstItem), or None"""
+        owner = None
+        if len(segs) >= 2:
+            owner = self.item.owner if segs[-2] == "Self" else segs[-2]
+        d = self.gen.const_decl(self.item.mod, segs[-1], owner)
+        if d is None or d[1] is None:
+            return None
+        ty, e, rel, dmod, downer = d
+        key = ("constitem", dmod, downer, segs[-1])
+        if key not in self.gen.cache:
+            self.gen.cache[key] = ConstItem(dmod, downer, segs[-1], ty, e, rel)
+        return self.gen.cache[key]
+
     # -- inference
     def infer_fn(self):
         params, has_self, ret, body = self.item.parse()
@@ -1308,7 +1337,15 @@ class FnFront:
                 if c is not None:
                     e.res = ("table", segs[-1])
                     return self.norm(c[0])
-            c = self.find_const(segs)
+            try:
+                c = self.find_const(segs)
+            except Refuse as ex:
+                item = self.const_item(segs)
+                if item is None:
+                    raise ex
+                info = self.gen.fn_info(item)
+                e.res = ("constfn", info)
+                return info.ret
             if c is not None:
                 e.res = ("const", c[1], "::".join(segs))
                 return c[0]
@@ -1638,6 +1675,10 @@ class FnFront:
             if name == "unwrap" and not e.args:
                 e.res = ("unwrap",)
                 return tr_[1]
+            if name == "unwrap_or" and len(e.args) == 1:
+                t = T.unify(tr_[1], self.infer(e.args[0], env, tr_[1]), "(unwrap_or)")
+                e.res = ("unwrap_or",)
+                return t
             raise Refuse(f"Option method `{name}` is outside the subset")
         if tr_[0] == "adt":
             item = self.gen.resolve_fn(tr_[1], name, self.item, method=True)
@@ -1992,6 +2033,8 @@ class FnTrans:
                 raise Refuse(f"constant `{r[2]}` of a type outside the subset")
             if r[0] == "table":
                 raise Refuse(f"table `{r[1]}` used other than by indexing")
+            if r[0] == "constfn":
+                return self.apply_fn(r[1], [], k, hint)
         if kd == "un":
             t = self.ty(e)
             if e.op == "-":
@@ -2151,6 +2194,15 @@ class FnTrans:
             return self.tr_mcall(e, env, k, hint)
         raise Refuse(f"expression kind `{kd}`")
 
+    def unwrap_or(self, v, d, t, k):
+        if getattr(v, "inner", None) is not None:
+            return k(v.inner)
+        if v.text == "none":
+            return k(d)
+        if t[0] == "int" or self.lean_type(t) == "Int":
+            return k(V(f"{v.emb(100)}.getD {d.emb(100)}", 90))
+        raise Refuse("unwrap_or on a non-integer Option")
+
     def proj(self, v, i, n):
         s = v.emb(100)
         if n == 2:
@@ -2162,7 +2214,12 @@ class FnTrans:
         if a["kind"] == "newtype" or len(a["fields"]) == 1:
             x = d["0"] if "0" in d else list(d.values())[0]
             return vlit(x)
-        return V(f"{self.gen.struct_name(t[1])}.mk " + " ".join(lit_text(d[f]) for f, _ in a["fields"]), 90, cval=d)
+        parts = []
+        for f, ft in a["fields"]:
+            x = d[f]
+            parts.append(lit_text(x) if isinstance(x, int) else
+                         self.const_struct(x, self.gen.norm_type(ft, t[1])).emb(100))
+        return V(f"{self.gen.struct_name(t[1])}.mk " + " ".join(parts), 90, cval=d)
 
     def match_opt(self, v, name, ksome, none_code):
         return self.match_opt_full(v, name, ksome, none_code)
@@ -2195,7 +2252,10 @@ class FnTrans:
         raise Refuse("call form")
 
     def apply_fn(self, info, vs, k, hint):
-        text = info.lean + "".join(" " + v.emb(100) for v in vs)
+        name = info.lean
+        if name.split(".")[0] in self.used:      # a local variable is called like the module: write the full name
+            name = "Chrono.Gen." + name
+        text = name + "".join(" " + v.emb(100) for v in vs)
         if info.impure:
             return self.res_bind(text, k, hint)
         return k(V(text, 90 if vs else 100))
@@ -2247,6 +2307,10 @@ class FnTrans:
             return self.tr(e.recv, env, lambda v: k(V(f"{v.emb(100)}.{'isSome' if r[1] else 'isNone'}", 100)))
         if r[0] == "unwrap":
             return self.tr(e.recv, env, lambda v: self.match_opt(v, hint, k, self.panic()))
+        if r[0] == "unwrap_or":
+            # the default is evaluated (eagerly, as in Rust) after the receiver and before the choice
+            t = self.ty(e)
+            return self.tr(e.recv, env, lambda v: self.tr(e.args[0], env, lambda d: self.unwrap_or(v, self.val(d, t), t, k)))
         raise Refuse("method call form")
 
     # -- control flow
@@ -2624,9 +2688,14 @@ class Gen:
                 return self.lean_type(self.norm_type(a["field"], t[1]))
             if kind == "single":
                 return self.lean_type(self.norm_type(a["fields"][0][1], t[1]))
-            for _, ft in a["fields"]:
-                if self.lean_type(self.norm_type(ft, t[1])) != "Int":
-                    raise Refuse(f"struct {t[1]} has a non-integer field")
+            if a.get("busy"):
+                raise Refuse(f"struct {t[1]} is recursive")
+            a["busy"] = True
+            try:
+                # field types first: a nested structure is registered (and emitted) before this one
+                a["lean_fields"] = [(f, self.lean_type(self.norm_type(ft, t[1]))) for f, ft in a["fields"]]
+            finally:
+                a["busy"] = False
             return self.struct_name(t[1])
         raise Refuse(f"type {show_type(t)} is outside the subset")
 
@@ -2919,6 +2988,8 @@ FILES = [
     ("src/traits.rs", "traits"),
     ("src/naive/time/mod.rs", "naive_time"),
     ("src/offset/fixed.rs", "offset_fixed"),
+    ("src/naive/mod.rs", "naive"),
+    ("src/naive/datetime/mod.rs", "naive_datetime"),
 ]
 
 # (file, impl type | None, function)                      an inherent / free function
@@ -2958,6 +3029,17 @@ TARGETS = (
     + [("src/traits.rs", None, f, "Timelike", "NaiveTime") for f in ["hour12", "num_seconds_from_midnight"]]
     + [("src/offset/fixed.rs", "FixedOffset", f) for f in
        ["east_opt", "west_opt", "local_minus_utc", "utc_minus_local"]]
+    + [("src/naive/date/mod.rs", "NaiveDate", f) for f in
+       ["checked_add_months", "checked_sub_months", "checked_add_days", "checked_sub_days", "checked_add_signed",
+        "checked_sub_signed", "signed_duration_since", "years_since", "from_weekday_of_month_opt", "week"]]
+    + [("src/naive/date/mod.rs", "NaiveDate", f, "Datelike") for f in
+       ["with_year", "with_month", "with_month0", "with_day", "with_day0", "with_ordinal", "with_ordinal0"]]
+    + [("src/naive/mod.rs", "NaiveWeek", f) for f in
+       ["new", "first_day", "checked_first_day", "last_day", "checked_last_day"]]
+    + [("src/naive/datetime/mod.rs", "NaiveDateTime", f) for f in
+       ["checked_add_signed", "checked_sub_signed", "checked_add_offset", "checked_sub_offset",
+        "overflowing_add_offset", "overflowing_sub_offset", "signed_duration_since", "checked_add_months",
+        "checked_sub_months", "checked_add_days", "checked_sub_days"]]
 )
 
 
@@ -3009,8 +3091,8 @@ def build(read):
         a = crate.adts[full.split(".")[-1]]
         out.append(f"/-- `struct {full.split('.')[-1]}` -/")
         out.append(f"structure {full} where")
-        for f, _ in a["fields"]:
-            out.append(f"  {f} : Int")
+        for f, ft in a["lean_fields"]:
+            out.append(f"  {f} : {ft}")
         out.append("  deriving DecidableEq, Repr")
         out.append("")
     for info in gen.order:
